@@ -1040,6 +1040,18 @@ func genC08(b *builder, n int) {
 		b.add("docs", "stream", []byte(d), nil)
 		b.add("docs", "tseries", []byte(d), func(c *Case) { c.Known = typedKnown })
 	}
+	// usage patterns (round 3): one Decoder driven by a script of calls, readers of
+	// every shape, results that must not share memory, the other exported lexers,
+	// TypeMaker result shapes, sizes around bufio's buffer, command lines ending
+	// inside a quote or an escape
+	genScripts(b, n/12, true)
+	genReaders(b, n/40)
+	genReuse9(b, 4)
+	genLexFn(b, n/20)
+	genMakerShapes(b)
+	genBig(b, "unmarshal", "series")
+	genEscapes(b, true)
+	genShellEOL(b)
 	// command lines
 	for _, s := range shellCorpus {
 		b.add("shell", "shell", []byte(s), nil)
@@ -1067,7 +1079,19 @@ func genC09(b *builder, n int) {
 	}
 	for _, d := range docs {
 		b.add("docs", "tojson", []byte(d), nil)
+		b.add("files", "file", []byte(d), withKnown)
 	}
+	// usage patterns (round 3): tokens keyed on their first bytes and length, escape
+	// boundaries, keyword prefixes, sizes around bufio's buffer, one Decoder driven
+	// by a script of calls, decoding targets, results that must not share memory
+	genNumLex(b, n < 20000)
+	genWords(b)
+	genEscapes(b, false)
+	genBig(b, "tojson")
+	genScripts(b, n/25, false)
+	genTargets(b, n/50)
+	genReuse9(b, 4)
+	genMakerShapes(b)
 	// arbitrary values under arbitrary surface choices
 	for i := 0; i < n; i++ {
 		v := g.value(3)
@@ -1141,6 +1165,10 @@ func genC09(b *builder, n int) {
 			extra = "1"
 		}
 		b.add("trailing", "unmarshal", []byte(txt+sep+extra), func(c *Case) { c.Reject = true })
+		if i%8 == 0 {
+			// the file-level entry points must report it as well
+			b.add("trailing", "file", []byte(txt+sep+extra), func(c *Case) { c.Reject = true; c.Known = seriesKnown })
+		}
 	}
 	// standard-library correspondences: json reference parser, Unquote, integer literals
 	for i := 0; i < n/4; i++ {
@@ -1241,6 +1269,12 @@ func genC07(b *builder, n int) {
 		}
 		addPrint("keys", m)
 	}
+	// usage patterns (round 3): small numbers and powers of ten of every Go number
+	// type, long strings / wide / deep containers, consecutive and concurrent
+	// Marshal calls and failing writers
+	genSmallNumbers(addPrint0)
+	genBigValues(addPrint0)
+	genReuse7(b, 6)
 	// Go values of concrete types through Marshal -> Unmarshal into the same type
 	genGoValues(b, n/3, addPrint0)
 	// code point classes; all code points
